@@ -18,3 +18,15 @@ apply Z.ltb_ge.
 assert (1 <= Z.of_nat (S r)) by lia.
 nia.
 Qed.
+
+(* ---- round 6: the per-step singularity test of luDecomposition as RE-READ from densematrix.hh (Params_gen:
+   c02_param_lu_sing_cmp / c02_param_lu_sing_thr), at the rational instance of the model where magnitudes exist:
+   it is the zero test and nothing else — a pivot of any non-zero magnitude is a pivot. *)
+From Coq Require Import QArith Qabs.
+Theorem q_pivot_test_zero (x : Q) : c02_q_pivzero x = Qeq_bool x 0.
+Proof.
+unfold c02_q_pivzero.
+replace c02_param_lu_sing_thr with O by (vm_compute; reflexivity).
+replace c02_param_lu_sing_cmp with O by (vm_compute; reflexivity).
+destruct x as [[|p|p] d]; reflexivity.
+Qed.
